@@ -150,6 +150,15 @@ func (r *RuleDef) YieldKs() []int {
 	return ks
 }
 
+// ConcExtras is the number of additional statements of a conc block (bits 16.. of Sec.Arg); they never
+// fail and never park, and each must run exactly once.
+func ConcExtras(arg int) int { return arg >> 16 }
+
+const extraBase = 4096
+
+// ExtraCode is the child code of additional statement j of the conc block at section p.
+func ExtraCode(p, j int) int { return extraBase + p*64 + j }
+
 // conc child kinds (bits of Sec.Arg)
 const (
 	ChAsgLocal = 0 // p = H.K(r,0)
@@ -275,6 +284,20 @@ func (r *RuleDef) Render() string {
 			if s.Arg&(1<<ChLocField) != 0 {
 				fmt.Fprintf(&b, "H.KA(%d,%d,lp%d.X)\n", id, p*8+ChLocField, p)
 			}
+			// further statements of all four forms ("any number and mix"): blocks well beyond a handful
+			for j := 0; j < ConcExtras(s.Arg); j++ {
+				code := ExtraCode(p, j)
+				switch j % 4 {
+				case 0:
+					fmt.Fprintf(&b, "e%d_%d = H.K(%d,%d)\n", p, j, id, code)
+				case 1:
+					fmt.Fprintf(&b, "H.K(%d,%d)\n", id, code)
+				case 2:
+					fmt.Fprintf(&b, "kf(%d,%d)\n", id, code)
+				case 3:
+					fmt.Fprintf(&b, "Req.In.K(%d,%d)\n", id, code)
+				}
+			}
 			b.WriteString("}\n")
 			// the statement after the block reads every assigned local / field
 			pa, qa, fa := "0", "0", "0"
@@ -368,7 +391,7 @@ func (r *RuleDef) String() string {
 	for _, s := range r.Secs {
 		n := secNames[s.Kind]
 		if s.Kind == SecConc {
-			n += fmt.Sprintf("(%b)", s.Arg)
+			n += fmt.Sprintf("(%b+%d)", s.Arg&0xffff, ConcExtras(s.Arg))
 		}
 		ss = append(ss, n)
 	}
